@@ -592,13 +592,18 @@ const char *UtilContext::get_address(const char *token, uint32_t *address)
   // Skip spaces at beginning.
   while (*token == ' ' && *token != 0) { token++; }
 
-  // Search symbol table
-  ret = symbols.lookup(token, address);
+  // Search symbol table for the first word (more words can follow, as in
+  // write <address> <data>..).
+  String name;
+  const char *end = token;
+
+  while (*end != ' ' && *end != 0) { name.append(*end); end++; }
+
+  ret = symbols.lookup(name.value(), address);
 
   if (ret == 0)
   {
-    while (*token != ' ' && *token != 0) { token++; }
-    return token;
+    return end;
   }
 
   token = get_num(token, address);
